@@ -99,6 +99,8 @@ impl BSheet {
 pub struct BBook {
     pub sheets: Vec<BSheet>,
     pub sst: Vec<String>,
+    /// per shared string: (number of formatting runs, phonetic text) — rich/phonetic data the reader must skip
+    pub sst_extra: Vec<(usize, Option<String>)>,
     /// custom formats (ifmt, code)
     pub fmts: Vec<(u16, String)>,
     /// ifmt of each cell XF
@@ -196,7 +198,21 @@ pub fn styles_bin(b: &BBook) -> Vec<u8> {
 pub fn sst_bin(b: &BBook) -> Vec<u8> {
     let mut d = (b.sst.len() as u32).to_le_bytes().to_vec(); d.extend((b.sst.len() as u32).to_le_bytes());
     let mut o = rec(0x9F, &d);
-    for s in &b.sst { let mut d = vec![0u8]; d.extend(ws(s)); o.extend(rec(0x13, &d)); }
+    for (i, s) in b.sst.iter().enumerate() {
+        let (runs, ph) = b.sst_extra.get(i).cloned().unwrap_or((0, None));
+        let mut d = vec![(runs > 0) as u8 | ((ph.is_some() as u8) << 1)];
+        d.extend(ws(s));
+        if runs > 0 {
+            d.extend((runs as u32).to_le_bytes());
+            for r in 0..runs { d.extend((r as u16).to_le_bytes()); d.extend(1u16.to_le_bytes()); }
+        }
+        if let Some(p) = &ph {
+            d.extend(ws(p));
+            d.extend(1u32.to_le_bytes());
+            d.extend([0u8, 0, 0, 0, 1, 0]);
+        }
+        o.extend(rec(0x13, &d));
+    }
     o.extend(rec(0xA0, &[]));
     o
 }
